@@ -113,6 +113,8 @@ macro_rules! with_dimacs_type {
     };
 }
 
+thread_local! { static NEW_SKIP: std::cell::Cell<usize> = std::cell::Cell::new(0); }
+
 macro_rules! construct {
     ($p:ty, $src:expr, $ctor:expr, $cfg:expr, $chunk:expr) => {{
         // the parsers construct their own DeferredReader; the chunk size can only be set through
@@ -126,6 +128,15 @@ macro_rules! construct {
                 } else {
                     <$p>::from_buf_reader(br, $cfg)
                 }
+            }
+            (Src::Read(rd), c) if c == "n" => {
+                // `new` on a reader the caller has already used: NEW_SKIP bytes are consumed before the hand-over
+                let mut r = DeferredReader::from_read(rd);
+                r.set_chunk_size($chunk);
+                let k = NEW_SKIP.with(|x| x.get());
+                let got = r.request(k).len().min(k);
+                r.advance(got);
+                <$p>::new(r.into(), $cfg)
             }
             (Src::Read(rd), c) => {
                 if $chunk != 16384 {
@@ -547,6 +558,7 @@ pub fn run_btor2_const(toks: &[&str]) -> String {
 
 /// Runs the configured parser to its final result; panics are caught and become the final outcome.
 pub fn run_setup(s: &Setup) -> (Trace, Rc<RefCell<Stats>>) {
+    NEW_SKIP.with(|x| x.set(if s.ctor == "n" { s.pre } else { 0 }));
     let (src, stats) = make_src(s);
     let mut t = Trace::default();
     let st2 = stats.clone();
@@ -755,6 +767,26 @@ pub fn oracle_expect(toks: &[&str]) -> String {
         return if t.fin.starts_with("E(") { "PASS".into() } else { format!("FAIL input violating a declared limit was not rejected: {}", got) };
     }
     if got == want { "PASS".into() } else { format!("FAIL got [{got}] expected [{want}]") }
+}
+
+/// o_new <setup with ctor n, pre = k>: `Parser::new(LineReader::new(reader))` on a reader from which the caller has already
+/// consumed k bytes must behave exactly like a parser started on the remaining input: same items, same final outcome, and
+/// error locations counted from the hand-over point.
+pub fn oracle_new(toks: &[&str]) -> String {
+    let s = Setup::parse(toks);
+    let k = s.pre.min(s.data.len());
+    let (used, _) = run_setup(&s);
+    let fresh = Setup { parser: s.parser.clone(), ty: s.ty.clone(), flags: s.flags.clone(), data: s.data[k..].to_vec(), events: vec![],
+                        pre: 0, chunk: 16384, ctor: "r".into() };
+    let (want, _) = run_setup(&fresh);
+    if used.fin != want.fin {
+        return format!("FAIL handed over after {k} consumed bytes the parser ends with {}, started on the remaining input it ends with {}", used.fin, want.fin);
+    }
+    if used.items != want.items {
+        return format!("FAIL handed over after {k} consumed bytes the parser hands out [{}], started on the remaining input [{}]",
+                       used.items.join(";"), want.items.join(";"));
+    }
+    "PASS".into()
 }
 
 /// o_skip <setup with flags kN>: AIGER streaming API, at most N entries taken per section (the section-switch methods
